@@ -137,6 +137,12 @@ def setpath(v, path, new):
     raise Gap('setpath %r' % (p,))
 
 
+def same_term(a, b):
+    if isinstance(a, int) or isinstance(b, int):
+        return isinstance(a, int) and isinstance(b, int) and a == b
+    return a.eq(b)
+
+
 def strip_generics(s):
     """remove ::<...> turbofish groups and <'_> lifetimes from a callee path (not the leading <T as Trait>)."""
     out = []
@@ -702,9 +708,16 @@ class Interp:
                 ch = xs.children()
                 if len(ch) == 2 and z3.is_int_value(ch[0]) and ch[0].as_long() % y == 0:
                     return (ch[0].as_long() // y) * ch[1], 0
+        # the same division on the same path yields the same quotient (no fresh variables)
+        xs_ = z3.simplify(x) if is_sym(x) else x
+        ys_ = z3.simplify(y) if is_sym(y) else y
+        for (x0, y0, q0, r0) in st.ghost.get('divs', ()):
+            if same_term(x0, xs_) and same_term(y0, ys_):
+                return q0, r0
         q = self.fresh('q')
         r = self.fresh('r')
         st.add(z3.And(x == q * y + r, r >= 0, r < y, q >= 0))
+        x, y = xs_, ys_
         xl, xh = self.bounds(x)
         yl, yh = self.bounds(y)
         qh = None
